@@ -69,6 +69,14 @@ func envInt(name string, def int) int {
 			return v
 		}
 	}
+	if name == "VERIF_N" {
+		// the targeted search widens every generator by a factor instead of switching tier
+		if s := os.Getenv("VERIF_MULT"); s != "" {
+			if v, err := strconv.Atoi(s); err == nil && v > 0 {
+				return def * v
+			}
+		}
+	}
 	return def
 }
 
